@@ -550,9 +550,24 @@ def _has_symbolic(x):
     return False
 
 
+class _Opaque(object):
+    def __str__(self):
+        return '<symbolic value>'
+    __repr__ = __str__
+
+
 def _my_percent(self, other):
     with NoTracing():
         plan = None
+        if type(self) is str and type(other) is dict and '%(' in self:
+            # CUT: "message %% {name: value}" only occurs in yabgp's exception constructors; the *text* of an
+            # error message is outside every claim, so symbolic values are rendered as an opaque token
+            # instead of being realised (formatting caused most forked states in the probes).
+            if any(_has_symbolic(v) or isinstance(v, (BytesLike, HexOfBytes)) for v in other.values()):
+                STATS['msg_cut'] = STATS.get('msg_cut', 0) + 1
+                safe = dict((k, (_Opaque() if (isinstance(v, CrossHairValue) or _has_symbolic(v)) else v))
+                            for k, v in other.items())
+                return self % safe
         if type(self) is str and _has_symbolic(other) and not isinstance(other, dict):
             parsed = _parse_simple_format(self)
             if parsed is not None:
